@@ -12,6 +12,9 @@
 //! and the two arrangements (a permutation / duplication of one another) agree.
 //! Oracle 6 (every arrangement) and the checks `boundary` / `lifecycle` go through the entry point
 //! the server uses: StreamingIntegration::recover into a node + the binary's WAL replay.
+//! Life-cycle steps: `Arrangement::truncate` (WAL truncation with a sound mark, then a crash) in
+//! every tier; check `maintenance` (real compaction passes with tombstone collection on causal
+//! layouts between persisting and recovering).
 //! Tier `race`: a concurrent writer of the same store (real Compactor::compact, a flush, a
 //! checkpoint install + manifest compaction) runs before every store call index of recovery; the
 //! call returns Err (an undisturbed retry then holds everything) or a state holding everything
@@ -94,6 +97,29 @@ struct Arrangement {
     /// global clock would leave unstreamed)
     wal_mode: u8,
     wal_q: u8,
+    /// life-cycle step: the WAL is truncated (`WalRotator::truncate_before`) with a SOUND mark -
+    /// every update stamped at or below it is in the checkpoint or in a listed segment - and
+    /// the process crashes before anything else is flushed
+    #[serde(default)]
+    truncate: Option<Trunc>,
+    /// causal layout: per key, the containers (segments in id order, the WAL last) receive the
+    /// key's updates in stamp order and no update sits in two containers - what one node's own
+    /// flush order produces. Only the `maintenance` check sets it.
+    #[serde(default)]
+    causal: bool,
+}
+
+#[derive(Clone, Debug, Serialize, Deserialize, Hash)]
+struct Trunc {
+    /// a first truncation request after (after/256) of the WAL appends (the running rotator:
+    /// its current file is never deleted); another one after the last append
+    after: u8,
+    /// 255 = the greatest sound mark (one below the lowest stamp that is only in the WAL);
+    /// otherwise scaled over the distinct stamps below it
+    mark: u8,
+    /// the last request is served by a fresh WalRotator over the same store (a restarted
+    /// process: every file is closed) instead of the running one
+    restarted: bool,
 }
 
 #[derive(Clone, Debug, Serialize, Deserialize, Hash)]
@@ -144,9 +170,18 @@ fn arrangement() -> impl Strategy<Value = Arrangement> {
         prop_oneof![Just(0u16), 0u16..400, any::<u16>()],
         prop_oneof![3 => Just(0u8), 1 => Just(1u8), 2 => Just(2u8)],
         any::<u8>(),
+        proptest::option::weighted(
+            0.4,
+            (
+                prop_oneof![1 => Just(255u8), 1 => any::<u8>()],
+                prop_oneof![3 => Just(255u8), 1 => any::<u8>()],
+                any::<bool>(),
+            )
+                .prop_map(|(after, mark, restarted)| Trunc { after, mark, restarted }),
+        ),
     )
         .prop_map(
-            |(n_segments, place, checkpoint, via_persistence, id_gaps, order, wal_file_size, wal_mode, wal_q)| Arrangement {
+            |(n_segments, place, checkpoint, via_persistence, id_gaps, order, wal_file_size, wal_mode, wal_q, truncate)| Arrangement {
                 n_segments,
                 place,
                 checkpoint,
@@ -156,6 +191,8 @@ fn arrangement() -> impl Strategy<Value = Arrangement> {
                 wal_file_size,
                 wal_mode,
                 wal_q,
+                truncate,
+                causal: false,
             },
         )
 }
@@ -312,7 +349,21 @@ struct Built {
     overlapping_segments: bool,
     key_in_two_containers: bool,
     dup_across_segments: bool,
+    /// WAL files written (before any truncation)
     wal_files: usize,
+    trunc: TruncInfo,
+}
+
+#[derive(Default, Clone, Debug)]
+struct TruncInfo {
+    requests: usize,
+    mark: Option<u64>,
+    files_deleted: usize,
+    by_restarted_process: bool,
+    /// at a request, a closed file held an entry above the mark FOLLOWED by a last entry at or
+    /// below it (stamps of several clocks interleaved in one file): it must be kept
+    kept_file_ending_below_mark: bool,
+    closed_file_not_monotone: bool,
 }
 
 fn cyc<T: Copy>(v: &[T], i: usize, default: T) -> T {
@@ -333,20 +384,42 @@ fn build(d: &[ReplicationDelta], arr: &Arrangement) -> Result<Built, String> {
         ts.sort();
         ts[(arr.wal_q as usize * ts.len()) >> 8]
     };
+    let mut primary: Vec<usize> = (0..d.len())
+        .map(|i| {
+            let w = cyc(&arr.place, i, 0);
+            match (arr.wal_mode, nseg) {
+                (_, 0) => 0,
+                (1, _) => ((w & 0xff) as usize * nseg) >> 8,
+                (2, _) => {
+                    if d[i].value.timestamp.time >= threshold {
+                        nseg
+                    } else {
+                        ((w & 0xff) as usize * nseg) >> 8
+                    }
+                }
+                _ => ((w & 0xff) as usize * (nseg + 1)) >> 8,
+            }
+        })
+        .collect();
+    if arr.causal {
+        // per key, the containers its updates chose are handed out in stamp order (segments in id
+        // order, the WAL = index nseg last): what the flush order of the node that made them gives
+        let mut by_key: BTreeMap<&String, Vec<usize>> = BTreeMap::new();
+        for i in 0..d.len() {
+            by_key.entry(&d[i].key).or_default().push(i);
+        }
+        for idx in by_key.values_mut() {
+            idx.sort_by_key(|&i| (d[i].value.timestamp, i));
+            let mut chosen: Vec<usize> = idx.iter().map(|&i| primary[i]).collect();
+            chosen.sort();
+            for (&i, c) in idx.iter().zip(chosen) {
+                primary[i] = c;
+            }
+        }
+    }
     for i in 0..d.len() {
         let w = cyc(&arr.place, i, 0);
-        let primary = match (arr.wal_mode, nseg) {
-            (_, 0) => 0,
-            (1, _) => ((w & 0xff) as usize * nseg) >> 8,
-            (2, _) => {
-                if d[i].value.timestamp.time >= threshold {
-                    nseg
-                } else {
-                    ((w & 0xff) as usize * nseg) >> 8
-                }
-            }
-            _ => ((w & 0xff) as usize * (nseg + 1)) >> 8,
-        };
+        let primary = primary[i];
         let twice = w & (1 << 12) != 0;
         if primary == nseg {
             wal.push(i);
@@ -358,6 +431,9 @@ fn build(d: &[ReplicationDelta], arr: &Arrangement) -> Result<Built, String> {
             if twice {
                 segs[primary].push(i);
             }
+        }
+        if arr.causal {
+            continue;
         }
         if w & (1 << 8) != 0 && primary != nseg {
             wal.push(i);
@@ -474,16 +550,88 @@ fn build(d: &[ReplicationDelta], arr: &Arrangement) -> Result<Built, String> {
     // ---- WAL
     let wstore = InMemoryWalStore::new();
     let mut wal_files = 0usize;
+    let mut trunc = TruncInfo::default();
     if !wal.is_empty() {
-        let mut rot = WalRotator::new(wstore.clone(), 64 + arr.wal_file_size as usize)
-            .map_err(|e| format!("WalRotator::new: {}", e))?;
-        for &i in &wal {
+        let file_size = 64 + arr.wal_file_size as usize;
+        let mut rot = WalRotator::new(wstore.clone(), file_size).map_err(|e| format!("WalRotator::new: {}", e))?;
+        // the sound marks: every update stamped at or below the mark is in the checkpoint or in a
+        // listed segment, i.e. the mark is below the lowest stamp that is only in the WAL
+        let mark: Option<u64> = arr.truncate.as_ref().and_then(|t| {
+            let bound = match wal
+                .iter()
+                .filter(|i| !in_checkpoint.contains(i) && !in_live_segments.contains(i))
+                .map(|&i| d[i].value.timestamp.time)
+                .min()
+            {
+                None => u64::MAX,
+                Some(0) => return None,
+                Some(m) => m - 1,
+            };
+            if t.mark == 255 {
+                return Some(bound);
+            }
+            let below: BTreeSet<u64> = std::iter::once(0)
+                .chain(d.iter().map(|x| x.value.timestamp.time).filter(|&x| x <= bound))
+                .collect();
+            below.iter().nth((t.mark as usize * below.len()) >> 8).copied()
+        });
+        let first_request_at = arr
+            .truncate
+            .as_ref()
+            .filter(|t| t.after != 255)
+            .map(|t| (t.after as usize * wal.len()) >> 8);
+        // (file sequence, stamp) of every append, in order
+        let mut appended: Vec<(u64, u64)> = Vec::new();
+        let note_request = |appended: &[(u64, u64)], current: Option<u64>, m: u64, tr: &mut TruncInfo| {
+            let files: BTreeSet<u64> = appended.iter().map(|a| a.0).collect();
+            for f in files {
+                if Some(f) == current {
+                    continue;
+                }
+                let stamps: Vec<u64> = appended.iter().filter(|a| a.0 == f).map(|a| a.1).collect();
+                let (last, max) = (*stamps.last().unwrap_or(&0), stamps.iter().copied().max().unwrap_or(0));
+                if last <= m && max > m {
+                    tr.kept_file_ending_below_mark = true;
+                }
+                if stamps.windows(2).any(|w| w[1] < w[0]) {
+                    tr.closed_file_not_monotone = true;
+                }
+            }
+        };
+        for (n, &i) in wal.iter().enumerate() {
+            if let (Some(at), Some(m)) = (first_request_at, mark) {
+                if at == n && n > 0 {
+                    rot.sync().map_err(|e| format!("sync: {}", e))?;
+                    note_request(&appended, appended.last().map(|a| a.0), m, &mut trunc);
+                    trunc.files_deleted += rot.truncate_before(m).map_err(|e| format!("truncate_before({}): {}", m, e))?;
+                    trunc.requests += 1;
+                }
+            }
             let e = WalEntry::from_delta(&d[i], d[i].value.timestamp.time)
                 .map_err(|e| format!("from_delta: {}", e))?;
-            rot.append(&e).map_err(|e| format!("append: {}", e))?;
+            let seq = rot.append(&e).map_err(|e| format!("append: {}", e))?;
+            appended.push((seq, e.timestamp));
         }
         rot.sync().map_err(|e| format!("sync: {}", e))?;
-        wal_files = wstore.file_count();
+        wal_files = appended.iter().map(|a| a.0).collect::<BTreeSet<_>>().len();
+        if let (Some(t), Some(m)) = (&arr.truncate, mark) {
+            if t.restarted {
+                drop(rot);
+                wstore.simulate_crash();
+                let mut again = WalRotator::new(wstore.clone(), file_size).map_err(|e| format!("WalRotator::new: {}", e))?;
+                note_request(&appended, None, m, &mut trunc);
+                trunc.files_deleted += again.truncate_before(m).map_err(|e| format!("truncate_before({}): {}", m, e))?;
+                trunc.by_restarted_process = true;
+            } else {
+                note_request(&appended, appended.last().map(|a| a.0), m, &mut trunc);
+                trunc.files_deleted += rot.truncate_before(m).map_err(|e| format!("truncate_before({}): {}", m, e))?;
+                drop(rot);
+            }
+            trunc.requests += 1;
+            trunc.mark = Some(m);
+            // the crash: nothing else is flushed, whatever was not fsynced is gone
+            wstore.simulate_crash();
+        }
     }
 
     // ---- classification
@@ -537,6 +685,7 @@ fn build(d: &[ReplicationDelta], arr: &Arrangement) -> Result<Built, String> {
         key_in_two_containers,
         dup_across_segments,
         wal_files,
+        trunc,
     })
 }
 
@@ -677,10 +826,17 @@ fn check_arrangement(
             ctx.label("wal_entry_below_high_water_lost");
         } else {
             return Err(format!(
-                "arrangement {}: recover_with_wal() is not the merge of everything persisted (segment high-water stamp {}; result {} the 'drop WAL entries below the high-water mark' behaviour)\n    {}\n  WAL stamps: {:?}\n  manifest: {}",
+                "arrangement {}: recover_with_wal() is not the merge of everything persisted (segment high-water stamp {}; result {} the 'drop WAL entries below the high-water mark' behaviour){}\n    {}\n  WAL stamps: {:?}\n  manifest: {}",
                 name,
                 b.high_water,
                 if matches_kf { "equals" } else { "is NOT explained by" },
+                match b.trunc.mark {
+                    Some(m) => format!(
+                        "; before the crash the WAL was truncated with truncate_before({}) - every update stamped <= {} is in the checkpoint or a listed segment - in {} request(s){}, {} of {} files deleted",
+                        m, m, b.trunc.requests, if b.trunc.by_restarted_process { ", the last by a restarted process" } else { "" }, b.trunc.files_deleted, b.wal_files
+                    ),
+                    None => String::new(),
+                },
                 diff,
                 b.in_wal.iter().map(|&i| (d[i].key.clone(), d[i].value.timestamp.time)).collect::<Vec<_>>(),
                 serde_json::to_string(&b.manifest).unwrap_or_default()
@@ -714,7 +870,27 @@ fn check_arrangement(
     if !b.in_checkpoint.is_empty() && b.in_live_segments.is_empty() {
         ctx.label("checkpoint_and_no_later_segment");
     }
+    label_truncation(&b, ctx);
     Ok((got_all, tolerated, b))
+}
+
+fn label_truncation(b: &Built, ctx: &mut CaseCtx<'_>) {
+    if b.trunc.requests == 0 {
+        return;
+    }
+    ctx.label("wal_truncated_then_crash");
+    if b.trunc.files_deleted > 0 {
+        ctx.label("wal_truncation_deleted_files");
+    }
+    if b.trunc.by_restarted_process {
+        ctx.label("wal_truncation_by_restarted_process");
+    }
+    if b.trunc.closed_file_not_monotone {
+        ctx.label("wal_truncation_file_with_interleaved_stamps");
+    }
+    if b.trunc.kept_file_ending_below_mark {
+        ctx.label("wal_truncation_file_above_mark_ends_below_mark");
+    }
 }
 
 fn check_layout(case: &Layout, ctx: &mut CaseCtx<'_>) -> Result<(), String> {
@@ -897,6 +1073,23 @@ fn check_server_startup(
     replica: u8,
     modulo: bool,
 ) -> Result<(), String> {
+    check_server_startup_opt(name, store, wal, truth_store, truth_all, keys, replica, modulo, true)
+}
+
+/// `strict_snapshot` = false: only what a client reads (GET / HGETALL / EXISTS) is compared, not
+/// snapshot_state() (after a legitimate tombstone collection the key is absent instead of deleted).
+#[allow(clippy::too_many_arguments)]
+fn check_server_startup_opt(
+    name: &str,
+    store: &InMemoryObjectStore,
+    wal: &InMemoryWalStore,
+    truth_store: &State,
+    truth_all: &State,
+    keys: &[(String, bool)],
+    replica: u8,
+    modulo: bool,
+    strict_snapshot: bool,
+) -> Result<(), String> {
     let views = server_startup(store, wal, replica, keys, 2).map_err(|e| format!("arrangement {}: {}", name, e))?;
     for (pass, v) in views.iter().enumerate() {
         let stages: [(&str, &Vec<Reply>, &State); 2] = [
@@ -931,6 +1124,9 @@ fn check_server_startup(
                     name, pass + 1, k, g.show(), if present { "present" } else { "absent" }
                 ));
             }
+        }
+        if !strict_snapshot {
+            continue;
         }
         if let Some(diff) = diff_states(truth_all, &v.snapshot, modulo) {
             return Err(format!(
@@ -1067,6 +1263,206 @@ fn check_boundary(case: &BoundaryCase, ctx: &mut CaseCtx<'_>) -> Result<(), Stri
             kind, b.in_checkpoint.len(), b.in_live_segments.len(), b.manifest.segments.len(), b.in_wal.len()));
     }
     ctx.nontrivial(case);
+    Ok(())
+}
+
+// ---------------------------------------------------------------------------------------
+// maintenance: compaction passes (incl. tombstone collection) between persisting and recovering
+// ---------------------------------------------------------------------------------------
+
+#[derive(Clone, Debug, Serialize, Deserialize, Hash)]
+struct Pass {
+    /// CompactionConfig::max_segments_per_compaction of this pass
+    max_per: u8,
+    /// where the tombstone horizon (compactor clock - tombstone_ttl) lies: 0 = nothing is old
+    /// enough, 255 = every tombstone is (what the production clock gives, KF-C13-02), otherwise
+    /// scaled over the distinct stamps of the ground truth
+    horizon: u8,
+}
+
+#[derive(Clone, Debug, Serialize, Deserialize, Hash)]
+struct MaintCase {
+    world: WorldSpec,
+    arr: Arrangement,
+    passes: Vec<Pass>,
+    node_replica: u8,
+}
+
+fn maint_case() -> impl Strategy<Value = MaintCase> {
+    let pass = (2u8..=4, prop_oneof![1 => Just(0u8), 3 => Just(255u8), 4 => any::<u8>()])
+        .prop_map(|(max_per, horizon)| Pass { max_per, horizon });
+    (
+        worldgen::world(GenCfg { max_keys: 3, ..world_cfg() }),
+        arrangement(),
+        proptest::collection::vec(pass, 1..=2),
+        1u8..=4,
+    )
+        .prop_map(|(world, mut arr, passes, node_replica)| {
+            // what the node that made the updates leaves behind: per key in stamp order, no
+            // checkpoint (a checkpoint next to tombstone collection is KF-C13-03)
+            arr.causal = true;
+            arr.checkpoint = None;
+            if arr.n_segments < 4 {
+                arr.n_segments += 3;
+            }
+            MaintCase { world, arr, passes, node_replica }
+        })
+}
+
+const TTL_MS: u64 = 1000;
+
+/// The states a key may legitimately be recovered in: the merge of all its updates, or - a
+/// tombstone older than the horizon having been collected together with everything older
+/// (only then is the collection invisible) - the merge of the updates above such a tombstone.
+/// `u` = the key's updates in stamp order, the first `in_store` of them in segments (the rest
+/// only in the WAL, out of the compactor's reach).
+fn legitimate_states(u: &[&ReplicationDelta], in_store: usize, horizon: u64) -> Vec<Option<ReplicatedValue>> {
+    let rest = |j: usize| -> Option<ReplicatedValue> {
+        u[j..].iter().fold(None, |acc: Option<ReplicatedValue>, x| {
+            Some(match acc {
+                Some(a) => a.merge(&x.value),
+                None => x.value.clone(),
+            })
+        })
+    };
+    let mut out = vec![rest(0)];
+    let mut below: Option<ReplicatedValue> = None;
+    for j in 1..=in_store.min(u.len()) {
+        below = Some(match below {
+            Some(a) => a.merge(&u[j - 1].value),
+            None => u[j - 1].value.clone(),
+        });
+        let b = below.as_ref().expect("just set");
+        if b.is_tombstone() && b.timestamp.time < horizon {
+            out.push(rest(j));
+        }
+    }
+    out
+}
+
+fn check_maintenance(case: &MaintCase, ctx: &mut CaseCtx<'_>) -> Result<(), String> {
+    let (d, extra) = worldgen::run(&case.world);
+    if d.is_empty() {
+        return Ok(());
+    }
+    let keys = typed_keys(&case.world, extra);
+    let modulo = ctx.finding_open(KF_OUTER_STAMP);
+    let mut arr = case.arr.clone();
+    arr.causal = true;
+    arr.checkpoint = None;
+    let b = build(&d, &arr).map_err(|e| format!("harness: {}", e))?;
+    let in_store: BTreeSet<usize> = b.in_live_segments.clone();
+    if in_store.iter().any(|i| b.in_wal.contains(i)) || in_store.len() + b.in_wal.iter().collect::<BTreeSet<_>>().len() != d.len() {
+        return Err("harness: the causal layout put an update into two containers or lost one".into());
+    }
+    label_truncation(&b, ctx);
+
+    // ---- the maintenance: compaction passes on the real store
+    let stamps: BTreeSet<u64> = d.iter().map(|x| x.value.timestamp.time).collect();
+    let mut horizon_max = 0u64;
+    let (mut partial, mut collected) = (false, 0u64);
+    for (n, p) in case.passes.iter().enumerate() {
+        let mm = ManifestManager::new(b.store.clone(), PREFIX);
+        let listed = ready(mm.load()).map(|m| m.segments.len()).unwrap_or(0);
+        // the compactor's clock: its tombstone horizon (now - ttl) is read against the stamps, as
+        // the code does
+        let horizon = match p.horizon {
+            0 => 0,
+            255 => u64::MAX - TTL_MS,
+            q => stamps.iter().nth((q as usize * stamps.len()) >> 8).map(|s| s.saturating_add(1)).unwrap_or(0),
+        };
+        // a pass that leaves segments out AFTER an earlier pass has renumbered the oldest data
+        // (the merged segment gets the highest id) is the open KF-C13-03; later passes take all
+        let max_per = if n == 0 { p.max_per.max(2) as usize } else { 255 };
+        let mut c = Compactor::with_time_source(
+            Arc::new(b.store.clone()),
+            PREFIX.to_string(),
+            mm,
+            CompactionConfig {
+                target_segment_size: 1 << 30,
+                max_segments: 2,
+                min_segments_to_compact: 2,
+                max_segments_per_compaction: max_per,
+                tombstone_ttl: std::time::Duration::from_millis(TTL_MS),
+                compression_enabled: false,
+            },
+            VerifTime::new(horizon.saturating_add(TTL_MS)),
+        );
+        match ready(c.compact()) {
+            Ok(r) => {
+                horizon_max = horizon_max.max(horizon);
+                collected += r.tombstones_removed;
+                if r.segments_removed.len() < listed {
+                    partial = true;
+                    ctx.label("compaction_pass_leaves_segments_out");
+                } else {
+                    ctx.label("compaction_pass_takes_every_segment");
+                }
+            }
+            Err(redis_sim::streaming::CompactionError::NothingToCompact) => ctx.label("compaction_nothing_to_compact"),
+            Err(e) => return Err(format!("compaction pass {}: {}", n + 1, e)),
+        }
+    }
+    if collected > 0 {
+        ctx.label("compaction_collected_tombstones");
+    }
+
+    // ---- recovery after the maintenance
+    let (r1, r2, rp, rw) = recover_all(&b).map_err(|e| format!("after compaction: {}", e))?;
+    if rs_proj(&r1) != rs_proj(&r2) || rs_proj(&r1) != rs_proj(&rp) {
+        return Err("after compaction: recover() twice / recover_with_progress() returned different RecoveredStates".into());
+    }
+    let mut per_key: BTreeMap<&String, Vec<usize>> = BTreeMap::new();
+    for i in 0..d.len() {
+        per_key.entry(&d[i].key).or_default().push(i);
+    }
+    for idx in per_key.values_mut() {
+        // stamp order; the WAL (newest per key by construction) last
+        idx.sort_by_key(|&i| (!in_store.contains(&i), d[i].value.timestamp, i));
+    }
+    let show = |v: &Option<ReplicatedValue>| match v {
+        Some(v) => peer(v, modulo).to_string(),
+        None => "(absent)".to_string(),
+    };
+    for (what, rs, with_wal) in [("recover()", &r1, false), ("recover_with_wal()", &rw, true)] {
+        let got = fold_recovered(rs);
+        if let Some(k) = got.keys().find(|k| !per_key.contains_key(k)) {
+            return Err(format!("after compaction: {} returns key {:?} that was never persisted", what, k));
+        }
+        for (k, idx) in &per_key {
+            let n_store = idx.iter().filter(|i| in_store.contains(i)).count();
+            let u: Vec<&ReplicationDelta> = idx.iter().take(if with_wal { idx.len() } else { n_store }).map(|&i| &d[i]).collect();
+            let allowed = legitimate_states(&u, n_store, horizon_max);
+            let g = got.get(*k).cloned();
+            let same = |a: &Option<ReplicatedValue>, b: &Option<ReplicatedValue>| match (a, b) {
+                (None, None) => true,
+                (Some(a), Some(b)) => peer(a, modulo) == peer(b, modulo) && client_view(a) == client_view(b),
+                _ => false,
+            };
+            if !allowed.iter().any(|a| same(a, &g)) {
+                return Err(format!(
+                    "after {} compaction pass(es) (tombstone horizon {}), {} gives key {:?} a state that is neither the merge of everything persisted nor that merge minus a collected tombstone older than the horizon together with everything older\n    merge of what was persisted: {}\n    recovered:                   {}\n    updates of the key (stamp order; segment-held {}): {}\n  manifest: {}",
+                    case.passes.len(), horizon_max, what, k, show(&allowed[0]), show(&g), n_store,
+                    u.iter().map(|x| format!("{}@({},{})", if x.value.is_tombstone() { "DEL" } else { "SET" }, x.value.timestamp.time, x.value.timestamp.replica_id.0)).collect::<Vec<_>>().join(" "),
+                    serde_json::to_string(&rs.manifest).unwrap_or_default()
+                ));
+            }
+            if allowed.len() > 1 && !same(&allowed[0], &g) {
+                ctx.label("recovered_without_collected_tombstone");
+            }
+        }
+    }
+    // ---- what a client reads after the server's start-up sequence = the merge of everything
+    let truth_store = fold(in_store.iter().map(|&i| &d[i]));
+    let truth_all = fold(d.iter());
+    check_server_startup_opt("after compaction", &b.store, &b.wal, &truth_store, &truth_all, &keys, case.node_replica, modulo, false)?;
+
+    if d.iter().any(|x| x.value.is_tombstone()) {
+        ctx.label("maintenance_tombstone_in_ground_truth");
+    }
+    if partial && collected > 0 {
+        ctx.nontrivial(case);
+    }
     Ok(())
 }
 
@@ -1880,6 +2276,8 @@ fn main() {
         "a case = ground-truth updates (<= 25 ops: SET incl. expiry, DEL, HSET, HDEL, gossip between replicas, remote far-ahead stamps) emitted through ShardReplicaState by 1-3 replicas x 16 shard clocks, \
          string keys and hash keys disjoint (no type flips), plus two independent arrangements of the same updates into checkpoint (fold of the covered segments + a generated subset; manifest compacted or not) / \
          0-6 segments (StreamingPersistence::push+flush or SegmentWriter+Manifest::add_segment with id gaps; duplicates within and across segments; generated order) / WAL files (WalRotator over InMemoryWalStore, overlapping the store or not). \
+         40 % of the arrangements truncate the WAL (WalRotator::truncate_before, sound mark, running or restarted rotator) and crash before recovery. \
+         maintenance: a causal layout (per key, segments in id order then the WAL hold the updates in stamp order) + 1-2 real compaction passes with a generated tombstone horizon, the first with max_segments_per_compaction 2-4; non-trivial = a pass left segments out and tombstones were collected. \
          race: one arrangement + 1-3 concurrent writers fired before every store call index of recover / recover_with_progress / recover_with_wal. \
          non-trivial = (layouts) an arrangement has >= 2 segments with overlapping stamp ranges and >= 1 key present in two containers; (race) the writer ran between the manifest read and the last call, >= 2 listed segments; distinct by the whole case",
         &args,
@@ -1889,6 +2287,8 @@ fn main() {
     s.assume("per key, stamps (time, replica) are unique, as Lamport clocks of one shard per replica produce them");
     s.assume("expiries are >= 1 s (what re-application through SETEX can carry); GET/HGETALL are compared, TTLs are not");
     s.assume("in-memory object store and WAL store without faults (faults are C12's/C10's)");
+    s.assume("a WAL truncation mark is sound: every update stamped at or below it is in the checkpoint or in a listed segment (a stamp threshold above an unstreamed stamp of another shard clock loses data by design of the interface and is not generated)");
+    s.assume("maintenance: tombstone collection is judged only on layouts where it is sound on the unchanged tree - causal per-key order over segment ids, no checkpoint, no segment above the target size, no older copy of an update in a later segment or the WAL, a pass that leaves segments out only as the first pass (otherwise KF-C13-02/-03, C13's open findings); compactor clock = harness clock read against stamps, as the code does; a collected tombstone older than the horizon may be missing only together with every older update of its key");
 
     // ---- known finding: recover_with_wal's high-water filter
     s.probe(
@@ -1911,6 +2311,8 @@ fn main() {
                 wal_file_size: 0,
                 wal_mode: 0,
                 wal_q: 0,
+                truncate: None,
+                causal: false,
             };
             let b = build(&d, &arr).ok()?;
             let (_, _, _, rw) = recover_all(&b).ok()?;
@@ -1944,6 +2346,8 @@ fn main() {
     s.run_cases("layouts", s.scale(8_000, 600_000), layout, check_layout);
     s.describe_check("boundary", "the boundary layouts (checkpoint only / checkpoint + only older segments / segments only / WAL only / nothing at all / checkpoint covering everything + WAL / empty manifest) through every oracle of 'layouts', incl. the server's start-up sequence (StreamingIntegration::recover + WAL replay, twice) compared by GET/HGETALL/EXISTS/snapshot_state");
     s.run_cases("boundary", s.scale(1_400, 60_000), boundary_case, check_boundary);
+    s.describe_check("maintenance", "causal layouts (per key, segments in id order and then the WAL hold the updates in stamp order; no checkpoint) + 1-2 real Compactor::compact passes with a generated tombstone horizon, the first with max_segments_per_compaction 2-4 (mostly fewer than the listed segments), then recover / recover_with_progress / recover_with_wal and the server's start-up sequence: per key the recovered state is the merge of everything persisted, or that merge minus a collected tombstone older than the horizon TOGETHER WITH everything older; a client reads (GET / HGETALL / EXISTS) exactly the merge of everything persisted; non-trivial = a pass left segments out and tombstones were collected");
+    s.run_cases("maintenance", s.scale(6_000, 180_000), maint_case, check_maintenance);
     s.describe_check("lifecycle", "1-3 process lifetimes over one store wired as the binary does (recover, start_workers, set_delta_sink, commands, graceful shutdown): what a restarted node serves = what the previous process served last; non-trivial = >= 2 sessions with writes");
     s.run_cases("lifecycle", s.scale(400, 12_000), life_case, check_lifecycle);
     s.describe_check("scale", "fixed size, not work-factor scaled: 70 000 / 100 000 / 150 000 distinct keys (checkpoint of 20-25k keys over compacted segments, 40-60 live segments, a WAL tail) and 100 000 updates on 100 keys, and 200 keys of which four carry 1.5-3 MiB values (one only in the WAL), recovered in one burst through StreamingIntegration::recover + the binary's WAL replay into a fresh node on a current-thread and on a multi-thread runtime; snapshot_state() count + checksum over sorted (key, value, stamps), sampled GET/HGETALL, number of keys listed by KEYS * vs the ground-truth fold");
